@@ -11,7 +11,10 @@ PROPS["C05"] = {
     "assumptions": ["faults are injected into allocate and growing reallocate only; shrinking reallocations always succeed",
                     "prefix histories run fault-free; the fault plan covers the probe operation only",
                     "aliasing copies (known finding D11/D12 of C04) are not used as probes"],
-    "quick": [_c05(1, "reduced", _TINY5)],
-    "thorough": [_c05(2, "reduced", _TINY5, cap=3000), _c05(1, "full", _TINY5), _c05(1, "reduced", [])],
+    "quick": [_c05(1, "reduced", _TINY5),
+              # 1-byte string lengths: maximum-length and over-long strings among the deserialization inputs
+              _c05(0, "reduced", _TINY5 + ["ARDUINOJSON_STRING_LENGTH_SIZE=1"])],
+    "thorough": [_c05(2, "reduced", _TINY5, cap=3000), _c05(1, "full", _TINY5), _c05(1, "reduced", []),
+                 _c05(1, "reduced", _TINY5 + ["ARDUINOJSON_STRING_LENGTH_SIZE=1"])],
     "thorough_deadline": 1800,
 }
